@@ -872,7 +872,11 @@ class tensor:
                 classidx[:, thisgrp] = np.sort(idx[:, thisgrp], axis=1)
 
                 # Compare each element to its class exemplar
-                if np.any(self.data.ravel() != self.data[tuple(classidx.transpose())]):
+                # The linear indices above follow the memory layout of the tensor
+                if np.any(
+                    self.data.ravel(order=self.order)
+                    != self.data[tuple(classidx.transpose())]
+                ):
                     return False
 
             # We survived all the tests!
@@ -1480,11 +1484,14 @@ class tensor:
                 linclassidx = tt_sub2ind(self.shape, classidx)
 
                 # Compare each element to its class exemplar
-                if np.all(data.ravel() == data[tuple(classidx.transpose())]):
+                # (flatten in the layout the linear indices above refer to)
+                if np.all(
+                    data.ravel(order=self.order) == data[tuple(classidx.transpose())]
+                ):
                     continue
 
                 # Take average over all elements in the same class
-                classSum = accumarray(linclassidx, data.ravel())
+                classSum = accumarray(linclassidx, data.ravel(order=self.order))
                 classNum = accumarray(linclassidx, 1)
                 # We ignore this division error state because if we don't have an entry
                 # in linclassidx we won't reference the inf or nan in the slice below
